@@ -546,3 +546,36 @@ Fixpoint run_hist {St} (P : prov St) (st : pstate St) (ops : list op) (i : nat) 
 Definition run_bin (dom : nat) (ops : list op) : list item := run_hist (bin_prov dom) (ps_init (bin_prov dom)) ops 0 [].
 Definition run_ter (has1 has2 : bool) (dom kdom : nat) (ops : list op) : list item :=
   run_hist (ter_prov has1 has2 dom kdom) (ps_init (ter_prov has1 has2 dom kdom)) ops 0 [].
+
+(* ------------------------------------------------------------------ fingerprints for the tie
+   Printing complete observations dominates the cost of a case (170 ms vs 10 ms), so the tie compares
+   order-independent fingerprints first and asks for the complete observation only on a difference.
+   Per view: the sum over its tuples of a mixed polynomial hash (a multiset hash, computed on native 63-bit
+   integers); for the delta version only the tuples NOT served by the same view of total are hashed and
+   keys are not hashed (see gen/c12_ds.py: class-level self connections of a Delta depend on hash order). *)
+Definition mix_mul : Uint63.int := Eval vm_compute in Uint63.of_Z 2654435761.
+Definition mix (h : Uint63.int) : Uint63.int := Uint63.mul (Uint63.lxor h (Uint63.lsr h (Uint63.of_Z 31))) mix_mul.
+Definition tfp (t : list nat) : Uint63.int := mix (fp (map Z.of_nat t)).
+Definition msfp (l : list (list nat)) : Uint63.int := fold_left (fun a t => Uint63.add a (tfp t)) l (Uint63.of_Z 0).
+Definition leqb (a b : list nat) : bool := Nat.eqb (length a) (length b) && forallb (fun p => Nat.eqb (fst p) (snd p)) (combine a b).
+Definition lmem (t : list nat) (l : list (list nat)) : bool := existsb (leqb t) l.
+
+Definition fp_views (d t : list view) : list Z :=
+  concat (map (fun dt =>
+    let '(dv, tv) := dt in
+    let '(dt_, _, df) := dv in
+    let '(tt_, tk_, tf) := tv in
+    [Uint63.to_Z (msfp (filter (fun x => negb (lmem x tt_)) dt_)); Z.of_nat df;
+     Uint63.to_Z (msfp tt_); Uint63.to_Z (msfp tk_); Z.of_nat tf]) (combine d t)).
+
+Definition err_code (e : err) : Z := match e with Oob => 0 | NoFuel => 1 | AssertFail => 2 | UnwrapNone => 3 end%Z.
+Definition fp_item (it : item) : list Z :=
+  match it with
+  | RRead d t => [0; Uint63.to_Z (fp (fp_views d t))]
+  | REnd => [1]
+  | RIns b => [2; if b then 1 else 0]
+  | RHeadT => [3]
+  | RHeadD => [4]
+  | RPanic i e => [5; Z.of_nat i; err_code e]
+  end%Z.
+Definition fp_run (l : list item) : list (list Z) := map fp_item l.
